@@ -189,6 +189,30 @@ func (env *SpecEnv) lookupIdent(name string) (Val, bool) {
 		if v, ok := env.localByName(name); ok {
 			return v, true
 		}
+		if name == "rangeslice" {
+			// the (unnamed) slice a range loop iterates over: operand of the
+			// element access indexed by the hidden range index
+			for _, b := range env.fr.fn.Blocks {
+				for _, ins := range b.Instrs {
+					var x, idx ssa.Value
+					switch i := ins.(type) {
+					case *ssa.IndexAddr:
+						x, idx = i.X, i.Index
+					case *ssa.Index:
+						x, idx = i.X, i.Index
+					default:
+						continue
+					}
+					if ld, ok := idx.(*ssa.UnOp); ok {
+						if a, ok := ld.X.(*ssa.Alloc); ok && a.Comment == "rangeindex" {
+							if v, ok := env.fr.regs[x]; ok {
+								return v, true
+							}
+						}
+					}
+				}
+			}
+		}
 	}
 	if env.pkg != nil {
 		if o := env.pkg.Scope().Lookup(name); o != nil {
@@ -210,7 +234,7 @@ func (env *SpecEnv) lookupIdent(name string) (Val, bool) {
 
 func (env *SpecEnv) localByName(name string) (Val, bool) {
 	fr := env.fr
-	var best *ssa.Alloc
+	var best, dead *ssa.Alloc
 	for _, b := range fr.fn.Blocks {
 		for _, ins := range b.Instrs {
 			if a, ok := ins.(*ssa.Alloc); ok && a.Comment == name {
@@ -219,9 +243,15 @@ func (env *SpecEnv) localByName(name string) (Val, bool) {
 					if best == nil {
 						best = a
 					}
+				} else if dead == nil {
+					dead = a
 				}
 			}
 		}
+	}
+	if best == nil && dead != nil {
+		// the local is not yet (or no longer) live at this point: its value is arbitrary
+		return env.ex.freshVal(nil, dead.Type().Underlying().(*types.Pointer).Elem(), "dead_"+name), true
 	}
 	if best == nil {
 		return Val{}, false
@@ -284,6 +314,19 @@ func (env *SpecEnv) eval(n *Node) Val {
 				sfail("! on non-boolean")
 			}
 			return mathBool(mkNot(x.L[0]))
+		}
+		if n.Op == "*" {
+			if x.T == nil {
+				sfail("* on a non-Go value")
+			}
+			if _, isPtr := x.T.Underlying().(*types.Pointer); !isPtr && x.LV == nil {
+				sfail("* on non-pointer %v", x.T)
+			}
+			lv := x.LV
+			if lv == nil {
+				lv = ex.ptrLV(x)
+			}
+			return ex.load(env.cur, lv)
 		}
 		if !x.isInt() {
 			sfail("unary - on non-integer")
@@ -817,6 +860,16 @@ func (env *SpecEnv) evalCall(n *Node) Val {
 		x := env.eval(args[0])
 		ex.sc.fun("box_str", []string{sStr}, sInt)
 		return mathInt(app("box_str", x.L[0]))
+	case "splitN":
+		ex.splitFuns()
+		return mathInt(app("split_n", env.eval(args[0]).L[0], env.eval(args[1]).L[0]))
+	case "splitPart":
+		// splitPart(s, sep, k): the k-th part of strings.Split(s, sep)
+		ex.splitFuns()
+		x, sp, k := env.eval(args[0]).L[0], env.eval(args[1]).L[0], env.eval(args[2]).L[0]
+		return Val{T: types.Typ[types.String], L: []string{app("ssub", x, app("split_b", x, sp, k), app("split_e", x, sp, k))}}
+	case "flagLeftover":
+		return mathInt(ex.flagLeft(env.cur))
 	case "ospid":
 		ex.sc.global("os_pid", sInt)
 		return mathInt("os_pid")
@@ -1087,6 +1140,12 @@ func (ex *Exec) atReturn(fr *Frame, st *State, reach string, vals []Val, pos tok
 	for i, cl := range ctr.Ensures {
 		g := env.evalBool(cl.E, fmt.Sprintf("%s ensures #%d", ctr.Key, i+1))
 		ex.oblige(fr, "post", cl.Tags, pos, "ensures "+cl.Text, reach, g)
+	}
+	// witness clauses may name the function's locals
+	env.fr = fr
+	for i, cl := range ctr.Witness {
+		g := env.evalBool(cl.E, fmt.Sprintf("%s witness #%d", ctr.Key, i+1))
+		ex.oblige(fr, "post", cl.Tags, pos, "witness "+cl.Text, reach, g)
 	}
 }
 
